@@ -184,6 +184,169 @@ func execDecode(w []string, hx func(int) []byte) (string, bool) {
 		t := time.Unix(ps, pn)
 		err := gocql.Unmarshal(gocql.NewNativeType(4, typ, ""), data, &t)
 		return fmt.Sprintf("%s %d.%d", stat(err), t.Unix(), t.Nanosecond()), true
+	case "etext", "ejson", "emcql", "eucql", "eucqlt":
+		return execErr(w, hx), true
+	case "ucqlum":
+		return execCustom(w, hx), true
+	case "mcqlm":
+		return execCustom(w, hx), true
+	case "ucqln":
+		// nullable destinations **T: null → nil pointer; else a FRESH value is allocated and decoded into; what the
+		// pointer pointed to before must stay as it was
+		typ := gocql.TypeUUID
+		switch w[1] {
+		case "uuid":
+		case "timeuuid":
+			typ = gocql.TypeTimeUUID
+		default:
+			panic("bad-op: column type")
+		}
+		info := gocql.NewNativeType(4, typ, "")
+		var data []byte
+		if w[4] != "null" {
+			data = append([]byte{}, hx(4)...)
+		}
+		var err error
+		var rep string
+		switch w[2] {
+		case "uuid":
+			var p, old *gocql.UUID
+			var oldv gocql.UUID
+			if w[3] != "nilptr" {
+				u := uuidOf(hx(3))
+				p, old, oldv = &u, &u, u
+			}
+			err = gocql.Unmarshal(info, data, &p)
+			switch {
+			case old != nil && *old != oldv:
+				rep = "OLD-POINTEE-WRITTEN"
+			case p == nil:
+				rep = "nilptr"
+			case p == old:
+				rep = "SAME-POINTER"
+			default:
+				rep = vh.Hex(p[:])
+			}
+		case "arr":
+			var p, old *[16]byte
+			var oldv [16]byte
+			if w[3] != "nilptr" {
+				a := [16]byte(uuidOf(hx(3)))
+				p, old, oldv = &a, &a, a
+			}
+			err = gocql.Unmarshal(info, data, &p)
+			switch {
+			case old != nil && *old != oldv:
+				rep = "OLD-POINTEE-WRITTEN"
+			case p == nil:
+				rep = "nilptr"
+			case p == old:
+				rep = "SAME-POINTER"
+			default:
+				rep = vh.Hex(p[:])
+			}
+		case "bytes":
+			var p, old *[]byte
+			var oldv string
+			if w[3] != "nilptr" {
+				var b []byte
+				if w[3] != "nil" {
+					b = hx(3)
+				}
+				p, old, oldv = &b, &b, string(b)
+			}
+			err = gocql.Unmarshal(info, data, &p)
+			switch {
+			case old != nil && string(*old) != oldv:
+				rep = "OLD-POINTEE-WRITTEN"
+			case p == nil:
+				rep = "nilptr"
+			case p == old:
+				rep = "SAME-POINTER"
+			case *p == nil:
+				rep = "nil"
+			default:
+				rep = vh.Hex(*p)
+				if len(data) > 0 && len(*p) > 0 && err == nil { // the destination must own its bytes
+					data[0] ^= 0xff
+					if vh.Hex(*p) != rep {
+						rep = "ALIASES-INPUT:" + rep
+					}
+					data[0] ^= 0xff
+				}
+			}
+		case "str":
+			var p, old *string
+			var oldv string
+			if w[3] != "nilptr" {
+				s := string(hx(3))
+				p, old, oldv = &s, &s, s
+			}
+			err = gocql.Unmarshal(info, data, &p)
+			switch {
+			case old != nil && *old != oldv:
+				rep = "OLD-POINTEE-WRITTEN"
+			case p == nil:
+				rep = "nilptr"
+			case p == old:
+				rep = "SAME-POINTER"
+			default:
+				rep = vh.Hex([]byte(*p))
+			}
+		default:
+			panic("bad-op: destination kind")
+		}
+		return stat(err) + " " + rep, true
+	case "ucqlnt":
+		typ := gocql.TypeUUID
+		if w[1] == "timeuuid" {
+			typ = gocql.TypeTimeUUID
+		} else if w[1] != "uuid" {
+			panic("bad-op: column type")
+		}
+		var data []byte
+		if w[3] != "null" {
+			data = append([]byte{}, hx(3)...)
+		}
+		var p, old *time.Time
+		var oldv time.Time
+		if w[2] != "nilptr" {
+			sn := strings.SplitN(w[2], ".", 2)
+			if len(sn) != 2 {
+				panic("bad-op: time")
+			}
+			ps, err1 := strconv.ParseInt(sn[0], 10, 64)
+			pn, err2 := strconv.ParseInt(sn[1], 10, 64)
+			if err1 != nil || err2 != nil {
+				panic("bad int")
+			}
+			t := time.Unix(ps, pn)
+			p, old, oldv = &t, &t, t
+		}
+		err := gocql.Unmarshal(gocql.NewNativeType(4, typ, ""), data, &p)
+		switch {
+		case old != nil && !old.Equal(oldv):
+			return stat(err) + " OLD-POINTEE-WRITTEN", true
+		case p == nil:
+			return stat(err) + " nilptr", true
+		case p == old:
+			return stat(err) + " SAME-POINTER", true
+		}
+		return fmt.Sprintf("%s %d.%d", stat(err), p.Unix(), p.Nanosecond()), true
+	case "mcqlp":
+		var p *gocql.UUID
+		if w[1] != "nil" {
+			u := uuidOf(hx(1))
+			p = &u
+		}
+		b, err := gocql.Marshal(gocql.NewNativeType(4, gocql.TypeUUID, ""), p)
+		if err != nil {
+			return "err", true
+		}
+		if b == nil {
+			return "ok null", true
+		}
+		return "ok " + vh.Hex(b), true
 	case "mcql":
 		var v interface{}
 		switch w[1] {
@@ -704,6 +867,87 @@ func runDecode(r *vh.Rng, out *vh.Out, mult int) {
 		a = exec(op)
 		out.Case(op, a, "mcql/"+kind+"/"+okerr(a), true)
 	}
+	// user types implementing Unmarshaler / Marshaler
+	for i := 0; i < 60*mult; i++ {
+		col := []string{"uuid", "timeuuid"}[r.Intn(2)]
+		data := []string{"null", "-", vh.Hex(r.Bytes(1 + r.Intn(40))), vh.Hex(genUUIDBytes(r))}[r.Intn(4)]
+		op := fmt.Sprintf("ucqlum %s %s %s", col, []string{"direct", "nullable"}[r.Intn(2)], data)
+		out.Case(op, exec(op), "ucqlum", i < 8)
+		op = fmt.Sprintf("mcqlm %s %s %s", col, []string{"value", "ptr", "nilptr"}[r.Intn(3)], data)
+		out.Case(op, exec(op), "mcqlm", i < 8)
+	}
+	// nullable destinations **T of gocql.Unmarshal (null / empty / 16 bytes / wrong lengths; pointer nil or pointing to
+	// a value that must not be touched), *UUID values of gocql.Marshal
+	for i := 0; i < 800*mult; i++ {
+		col := []string{"uuid", "timeuuid"}[r.Intn(2)]
+		kind := []string{"uuid", "arr", "bytes", "str"}[r.Intn(4)]
+		var data string
+		dcls := "16"
+		switch r.Intn(8) {
+		case 0, 1:
+			data, dcls = "null", "null"
+		case 2:
+			data, dcls = "-", "empty"
+		case 3:
+			n := []int{1, 4, 8, 15, 17, 32, 36}[r.Intn(7)]
+			data, dcls = vh.Hex(r.Bytes(n)), "wrong-length"
+		default:
+			data = vh.Hex(genUUIDBytes(r))
+		}
+		prev := "nilptr"
+		if r.Intn(3) != 0 {
+			switch kind {
+			case "uuid", "arr":
+				var want []byte
+				if dcls == "16" {
+					want, _ = vh.UnHex(data)
+				}
+				p, _ := genPrev(r, want, last)
+				prev = vh.Hex(p)
+			case "bytes":
+				prev = []string{"nil", "-", vh.Hex(r.Bytes(1 + r.Intn(40))), vh.Hex(r.Bytes(16))}[r.Intn(4)]
+			default:
+				s, _ := genText(r)
+				prev = []string{"-", vh.Hex([]byte(s))}[r.Intn(2)]
+			}
+		}
+		op := fmt.Sprintf("ucqln %s %s %s %s", col, kind, prev, data)
+		a := exec(op)
+		out.Case(op, a, "ucqln/"+col+"/"+kind+"/"+dcls+"/"+okerr(a), true)
+		if i%2 == 0 {
+			sec, ns, _ := genTime(r)
+			if r.Bool() {
+				sec = timeBase + int64(r.U64()%uint64(maxSec-timeBase))
+			}
+			tdata, tcls := "null", "null"
+			switch r.Intn(6) {
+			case 0:
+			case 1:
+				tdata, tcls = vh.Hex(r.Bytes(r.Intn(20))), "random-length"
+			case 2:
+				tdata, tcls = vh.Hex(genUUIDBytes(r)), "any-version"
+			default:
+				u := gocql.TimeUUIDWith(gocql.VerifGetTimestamp(time.Unix(sec, ns)), genClock(r), r.Bytes(6))
+				tdata, tcls = vh.Hex(u[:]), "v1"
+			}
+			tprev := "nilptr"
+			if r.Bool() {
+				psec, pns, _ := genTime(r)
+				tprev = fmt.Sprintf("%d.%d", psec, pns)
+			}
+			tcol := []string{"timeuuid", "timeuuid", "uuid"}[r.Intn(3)]
+			op = fmt.Sprintf("ucqlnt %s %s %s", tcol, tprev, tdata)
+			a = exec(op)
+			out.Case(op, a, "ucqlnt/"+tcol+"/"+tcls+"/"+okerr(a), true)
+			c := "nil"
+			if r.Intn(4) != 0 {
+				c = vh.Hex(genUUIDBytes(r))
+			}
+			op = "mcqlp " + c
+			a = exec(op)
+			out.Case(op, a, "mcqlp/"+okerr(a), true)
+		}
+	}
 	// the print/parse round trip through every printer/decoder pair on a dirty destination
 	for i := 0; i < 1000*mult; i++ {
 		u := genUUIDBytes(r)
@@ -711,4 +955,266 @@ func runDecode(r *vh.Rng, out *vh.Out, mult int) {
 		op := fmt.Sprintf("rtdirty %s %s", vh.Hex(p), vh.Hex(u))
 		out.Case(op, exec(op), "rtdirty/"+pc, true)
 	}
+}
+
+// ---- error values: Go error type and text (Lean: Model/UuidErr.lean)
+
+func nonASCII(b []byte) bool {
+	for _, c := range b {
+		if c >= 0x80 {
+			return true
+		}
+	}
+	return false
+}
+
+// showErr: ok | <E|M|U>:<hex of err.Error()>; quoted = the string a %q in the message was applied to (nil = none):
+// if it holds a byte >= 0x80 only the error's type is reported
+func showErr(err error, quoted []byte) string {
+	if err == nil {
+		return "ok"
+	}
+	k := "E:"
+	switch err.(type) {
+	case gocql.MarshalError:
+		k = "M:"
+	case gocql.UnmarshalError:
+		k = "U:"
+	}
+	if quoted != nil && nonASCII(quoted) {
+		return k + "nonascii"
+	}
+	return k + vh.Hex([]byte(err.Error()))
+}
+
+func execErr(w []string, hx func(int) []byte) string {
+	colInfo := func(c string) gocql.TypeInfo {
+		switch c {
+		case "uuid":
+			return gocql.NewNativeType(4, gocql.TypeUUID, "")
+		case "timeuuid":
+			return gocql.NewNativeType(4, gocql.TypeTimeUUID, "")
+		}
+		panic("bad-op: column type")
+	}
+	switch w[0] {
+	case "etext":
+		t := hx(1)
+		_, err := gocql.ParseUUID(string(t))
+		var u gocql.UUID
+		err2 := u.UnmarshalText(t)
+		if (err == nil) != (err2 == nil) || (err != nil && err.Error() != err2.Error()) {
+			return "inconsistent:UnmarshalText"
+		}
+		return showErr(err, append([]byte{}, t...))
+	case "ejson":
+		d := hx(1)
+		var u gocql.UUID
+		err := u.UnmarshalJSON(d)
+		trimmed := []byte(strings.Trim(string(d), `"`))
+		if len(trimmed) > 36 {
+			return showErr(err, nil) // %s: the bytes as they are
+		}
+		return showErr(err, append([]byte{}, trimmed...))
+	case "emcql":
+		var v interface{}
+		var quoted []byte
+		switch w[2] {
+		case "uuid":
+			v = uuidOf(hx(3))
+		case "arr":
+			v = [16]byte(uuidOf(hx(3)))
+		case "bytes":
+			var b []byte
+			if w[3] != "nil" {
+				b = hx(3)
+			}
+			v = b
+		case "str":
+			v = string(hx(3))
+			quoted = append([]byte{}, hx(3)...)
+		default:
+			panic("bad-op: value kind")
+		}
+		_, err := gocql.Marshal(colInfo(w[1]), v)
+		return showErr(err, quoted)
+	case "eucql":
+		var data []byte
+		if w[3] != "null" {
+			data = append([]byte{}, hx(3)...)
+		}
+		var err error
+		switch w[2] {
+		case "uuid":
+			var u gocql.UUID
+			err = gocql.Unmarshal(colInfo(w[1]), data, &u)
+		case "arr":
+			var a [16]byte
+			err = gocql.Unmarshal(colInfo(w[1]), data, &a)
+		case "bytes":
+			var b []byte
+			err = gocql.Unmarshal(colInfo(w[1]), data, &b)
+		case "str":
+			var s string
+			err = gocql.Unmarshal(colInfo(w[1]), data, &s)
+		default:
+			panic("bad-op: destination kind")
+		}
+		return showErr(err, nil)
+	case "eucqlt":
+		var data []byte
+		if w[2] != "null" {
+			data = append([]byte{}, hx(2)...)
+		}
+		var t time.Time
+		return showErr(gocql.Unmarshal(colInfo(w[1]), data, &t), nil)
+	}
+	return "bad-op"
+}
+
+// runErrs: the error-value cases of one run.
+func runErrs(r *vh.Rng, out *vh.Out, mult int) {
+	for i := 0; i < 1500*mult; i++ {
+		var s string
+		var cls string
+		if r.Bool() {
+			s, cls = genString(r)
+		} else {
+			s, cls = genText(r)
+		}
+		if r.Intn(6) == 0 { // bytes that %q escapes: quotes, backslashes, control characters, DEL
+			b := []byte(s)
+			for k := 0; k < 1+r.Intn(3) && len(b) > 0; k++ {
+				b[r.Intn(len(b))] = r.PickByte([]byte{'"', '\\', 0, 1, 7, 8, 9, 10, 11, 12, 13, 0x1b, 0x1f, 0x7f, ' ', '~', '\''})
+			}
+			s, cls = string(b), "escapes"
+		}
+		op := "etext " + vh.Hex([]byte(s))
+		a := exec(op)
+		out.Case(op, a, "etext/"+cls+"/"+a[:1], true)
+		d := s
+		switch r.Intn(4) {
+		case 0:
+			d = `"` + s + `"`
+		case 1:
+			d = `""` + s + strings.Repeat("0", r.Intn(8)) + `"`
+		}
+		op = "ejson " + vh.Hex([]byte(d))
+		a = exec(op)
+		out.Case(op, a, "ejson/"+a[:1], true)
+		op = fmt.Sprintf("emcql %s str %s", []string{"uuid", "timeuuid"}[r.Intn(2)], vh.Hex([]byte(s)))
+		a = exec(op)
+		out.Case(op, a, "emcql/str/"+a[:1], true)
+	}
+	for i := 0; i < 300*mult; i++ {
+		col := []string{"uuid", "timeuuid"}[r.Intn(2)]
+		n := []int{0, 1, 15, 16, 17, 36, 255, 256, 1000}[r.Intn(9)]
+		c := vh.Hex(r.Bytes(n))
+		if r.Intn(8) == 0 {
+			c = "nil"
+		}
+		op := fmt.Sprintf("emcql %s bytes %s", col, c)
+		a := exec(op)
+		out.Case(op, a, "emcql/bytes/"+a[:1], true)
+		data := []string{"null", "-", vh.Hex(r.Bytes(1 + r.Intn(40))), vh.Hex(genUUIDBytes(r))}[r.Intn(4)]
+		op = fmt.Sprintf("eucql %s %s %s", col, []string{"uuid", "arr", "bytes", "str"}[r.Intn(4)], data)
+		a = exec(op)
+		out.Case(op, a, "eucql/"+a[:1], true)
+		op = fmt.Sprintf("eucqlt %s %s", col, data)
+		a = exec(op)
+		out.Case(op, a, "eucqlt/"+col+"/"+a[:1], true)
+	}
+}
+
+// ---- user types: Unmarshaler destinations and Marshaler values of uuid / timeuuid columns
+
+type spyCQL struct {
+	called bool
+	typ    gocql.Type
+	data   []byte
+	isNil  bool
+}
+
+func (s *spyCQL) UnmarshalCQL(info gocql.TypeInfo, data []byte) error {
+	s.called, s.typ, s.isNil = true, info.Type(), data == nil
+	s.data = append([]byte{}, data...)
+	return nil
+}
+
+type spyM struct{ b []byte }
+
+func (s spyM) MarshalCQL(info gocql.TypeInfo) ([]byte, error) { return s.b, nil }
+
+func execCustom(w []string, hx func(int) []byte) string {
+	var info gocql.TypeInfo
+	switch w[1] {
+	case "uuid":
+		info = gocql.NewNativeType(4, gocql.TypeUUID, "")
+	case "timeuuid":
+		info = gocql.NewNativeType(4, gocql.TypeTimeUUID, "")
+	default:
+		panic("bad-op: column type")
+	}
+	var data []byte
+	if w[3] != "null" {
+		data = append([]byte{}, hx(3)...)
+	}
+	show := func(b []byte, isNil bool) string {
+		if isNil {
+			return "null"
+		}
+		return vh.Hex(b)
+	}
+	colOf := func(t gocql.Type) string {
+		switch t {
+		case gocql.TypeUUID:
+			return "uuid"
+		case gocql.TypeTimeUUID:
+			return "timeuuid"
+		}
+		return "OTHER-TYPE"
+	}
+	switch w[0] {
+	case "ucqlum":
+		switch w[2] {
+		case "direct":
+			var s spyCQL
+			err := gocql.Unmarshal(info, data, &s)
+			if !s.called {
+				return stat(err) + " notcalled"
+			}
+			return stat(err) + " called " + colOf(s.typ) + " " + show(s.data, s.isNil)
+		case "nullable":
+			old := &spyCQL{}
+			p := old
+			err := gocql.Unmarshal(info, data, &p)
+			switch {
+			case old.called:
+				return stat(err) + " OLD-POINTEE-CALLED"
+			case p == nil:
+				return stat(err) + " nilptr"
+			case p == old || !p.called:
+				return stat(err) + " notcalled"
+			}
+			return stat(err) + " called " + colOf(p.typ) + " " + show(p.data, p.isNil)
+		}
+	case "mcqlm":
+		var v interface{}
+		switch w[2] {
+		case "value":
+			v = spyM{data}
+		case "ptr":
+			v = &spyM{data}
+		case "nilptr":
+			v = (*spyM)(nil)
+		default:
+			panic("bad-op: value kind")
+		}
+		b, err := gocql.Marshal(info, v)
+		if err != nil {
+			return "err"
+		}
+		return "ok " + show(b, b == nil)
+	}
+	panic("bad-op: custom")
 }
